@@ -35,6 +35,7 @@ var c06Programs = []string{
 	`$match(a, /[A-Z]/).match`,                       // regex
 	`a.$substringBefore($$.b.$substringBefore("z"))`, // built-in nested in its own argument
 	`$uppercase(a) & $x`,                             // registered variable
+	`a ~> $replace("z", "-", 1)`,                     // chain with a three-argument call (argument list with spare capacity in the tree)
 }
 
 func c06Doc(thread int) interface{} {
